@@ -533,6 +533,8 @@ class ArrInterp(ResultInterp):
                 if tgt is m:
                     m.kind = flip
                     return m
+        if name == "numpy.issubdtype" and len(args) == 2 and isinstance(args[0], Sym) and args[0].name.startswith("dtypeof:") and isinstance(args[1], Sym) and not kwargs:
+            return self._dtype_fact((args[0].name, "issubdtype", args[1].name))
         if name == "numpy.iinfo" and len(args) == 1 and isinstance(args[0], Sym) and args[0].name.startswith("dtypeof:"):
             return RangeInfo(args[0].name)
         if name in ("numpy.zeros",) and args and isinstance(args[0], NValues) and not (set(kwargs) - {"dtype"}):
